@@ -16,7 +16,7 @@ import (
 func init() {
 	register(&explore.Prop{
 		ID: "C13", Level: levelMC, Explorer: "E2 sequence explorer, state mode (BFS over the real private state of the reused objects)",
-		Rule: "slots = one reusable PostingsList and one reusable PostingsIterator, plus one long-lived Dictionary per (segment, field); operation = lookup(segment in {built multi-chunk with locations, merged with 1-hit and general terms, empty batch}, field in {with terms, known without terms, unknown}, term in {general, single-doc (1-hit in the merged segment), absent}, except in {nil, first doc, all docs}, flags in {000,100,111}, consume in {0,1,all,all+1 postings}, prealloc PostingsList in {nil, slot}, prealloc PostingsIterator in {nil, slot}), plus reiterate: the list held in the slot since an earlier lookup is asked again for Count and an iterator (with or without the slot iterator) without a new lookup; BFS over states = (VerifStatePL(slot), VerifStateIter(slot)) to a fixpoint: every reuse history of any length over this alphabet; oracle: the complete result of each lookup equals the same lookup with fresh objects and the reference model; " +
+		Rule: "slots = one reusable PostingsList and one reusable PostingsIterator, plus one long-lived Dictionary per (segment, field); a doc-value reader kept across every order of <=5 visits over {0,5,1024,last} of four 1030/2049-document segments, compared with a fresh reader per visit; operation = lookup(segment in {built multi-chunk with locations, merged with 1-hit and general terms, empty batch}, field in {with terms, known without terms, unknown}, term in {general, single-doc (1-hit in the merged segment), absent}, except in {nil, first doc, all docs}, flags in {000,100,111}, consume in {0,1,all,all+1 postings}, prealloc PostingsList in {nil, slot}, prealloc PostingsIterator in {nil, slot}), plus reiterate: the list held in the slot since an earlier lookup is asked again for Count and an iterator (with or without the slot iterator) without a new lookup; BFS over states = (VerifStatePL(slot), VerifStateIter(slot)) to a fixpoint: every reuse history of any length over this alphabet; oracle: the complete result of each lookup equals the same lookup with fresh objects and the reference model; " +
 			"distinct/non-trivial = transitions whose lookup reuses an object last used for a different (segment, field, term, except, flags)",
 		Assumptions: append(append([]string{}, commonAssumptions...), "vellum.Reader state inside a long-lived Dictionary is not part of the state key (trusted to be result-neutral)"),
 		Budget:      qBudget, Run: runC13,
@@ -401,7 +401,67 @@ func (m *c13Machine) judge(o lookupOp, exc *roaring.Bitmap, got, want lookupResu
 	return ""
 }
 
+// dvReuse: one doc-value reader kept across many documents must answer every visit like a fresh
+// reader opened for that visit alone (the doc-value part of C13; C07 judges the same sequences
+// against the model).
+func dvReuse(c *explore.Ctx) {
+	type cs struct{ n, p int }
+	for ci, k := range []cs{{1030, 4}, {1030, 0}, {2049, 3}, {2049, 7}} {
+		scope := "DV-REUSE"
+		if !c.MineIdx(scope, int64(ci)) {
+			continue
+		}
+		batch := dvcBatch(k.n, k.p)
+		seg, err := build(batch, 1025)
+		if err != nil {
+			c.Violate(scope, int64(ci), sigOf("C13", "dv-build", "error: "+err.Error()), err.Error(), fmt.Sprint(k))
+			continue
+		}
+		fields := []string{"b", "d"}
+		visit := func(r segment.DocumentValueReader, d uint64) (out string) {
+			msg := explore.Guard(func() {
+				err := r.VisitDocumentValues(d, func(f string, t []byte) { out += f + "=" + string(t) + ";" })
+				if err != nil {
+					out += "ERR " + err.Error()
+				}
+			})
+			return out + msg
+		}
+		docs := []uint64{0, 5, 1024, uint64(k.n - 1)}
+		for _, o := range orders(docs, 5) {
+			c.Eval()
+			c.R.Distinct++
+			c.Nontrivial()
+			c.R.Transitions += int64(len(o))
+			reused, err := seg.DocumentValueReader(fields)
+			if err != nil {
+				c.Violate(scope, int64(ci), sigOf("C13", "dv-reader", "error: "+err.Error()), err.Error(), fmt.Sprint(k))
+				break
+			}
+			bad := false
+			for i, d := range o {
+				fresh, _ := seg.DocumentValueReader(fields)
+				got, want := visit(reused, d), visit(fresh, d)
+				if got != want {
+					c.Violate(scope, int64(ci), "C13/dv-reuse/wrong", fmt.Sprintf("visit #%d of order %v (doc %d): reused reader delivered %q, a fresh reader %q", i, o, d, got, want), fmt.Sprintf("DV-REUSE n=%d pattern=%d", k.n, k.p))
+					bad = true
+					break
+				}
+			}
+			if bad {
+				break
+			}
+		}
+	}
+}
+
 func runC13(c *explore.Ctx) {
+	if !c.Replay || c.ReplayScope == "DV-REUSE" {
+		dvReuse(c)
+		if c.Replay {
+			return
+		}
+	}
 	// the state graph is one connected search; it is partitioned over workers by the first operation
 	e, err := newC13Env(c.Thorough())
 	if err != nil {
